@@ -120,6 +120,18 @@ Generic rules added for the Infer group (additive; the output for the older grou
  * a nested `def` whose body is plain assignments to names followed by one `return` becomes a local `fun` with `let`s
    (`assert isinstance(...)` lines in it are skipped like everywhere else);
  * constants in patterns match by value AND type (`0.0` does not match `0`, `True` does not match `1`).
+
+Spec keys added for the Transpile group (each is inert unless the spec sets it):
+ * `'tail_assign': True`: `if c: …; T = X  else: …; T = Y` - every branch ENDS with an assignment to the same new name T
+   (a branch may instead end in `raise`, or in a nested if/else of this shape), T assigned nowhere else in it - becomes
+   `let T ← (do if c then …; X' else …; Y')`, so that `T` is in scope after the statement (python's function scope)
+   without a dummy initial value;
+ * `'emit_params': True`: also emits `<lean_name>_params : Nat × Nat × List String` = (number of required positional
+   parameters, number of positional parameters, source text of the default values) read from the `def`, so that
+   python's calling convention of the function is tied too;
+ * `'raise_evaluates': True`: the argument expressions of a `raise E(...)` are scanned in evaluation order and every
+   sub-expression bound by a MONADIC pattern (e.g. a subscript that can raise IndexError) is evaluated (`let _ ← …`)
+   before the `throw` - python evaluates the message before raising.
 """
 import ast
 import copy
@@ -215,6 +227,7 @@ class Fn:
         self.for_depth = 0
         self.loop_vars = []          # [(names of the for target, indentation of the loop body)]
         self.lines = []
+        self.declared_before_walk = set(spec.get('loop_state', [])) | set(spec.get('mutable', []))
 
     # ---------------------------------------------------------------- expressions
     def fill(self, template, binds, cond=False):
@@ -425,6 +438,13 @@ class Fn:
                 elif isinstance(s, ast.If) and self.same_assign_branches(s) is not None:
                     for nm in targets(s.body[0].targets[0]):
                         count.setdefault(nm, []).append(depth)
+                elif isinstance(s, ast.If) and self.tail_assign_branches(s) is not None:
+                    # the tail name is bound once, by the `let T ← (do if …)`; everything else counts as usual
+                    nm_ = self.tail_assign_branches(s)
+                    before = list(count.get(nm_, []))
+                    walk(s.body, depth + 1)
+                    walk(s.orelse, depth + 1)
+                    count[nm_] = before + [depth]
                 elif isinstance(s, (ast.If, ast.While)):
                     walk(s.body, depth + 1)
                     walk(s.orelse, depth + 1)
@@ -462,6 +482,79 @@ class Fn:
                 return s.body[0].targets[0], s.body[0].value, \
                     ast.IfExp(test=s.orelse[0].test, body=inner[1], orelse=inner[2])
         return None
+
+    def tails(self, blk):
+        """names assigned by the LAST statement of a block, looking through if/else and raise; None = other shape"""
+        if not blk:
+            return None
+        last = blk[-1]
+        if isinstance(last, ast.Assign) and len(last.targets) == 1 and isinstance(last.targets[0], ast.Name):
+            return {last.targets[0].id}
+        if isinstance(last, ast.Raise):
+            return set()
+        if isinstance(last, ast.If) and last.orelse and self.same_assign_branches(last) is None:
+            x, y = self.tails(last.body), self.tails(last.orelse)
+            return None if x is None or y is None else x | y
+        return None
+
+    def non_tail_stores(self, blk, nm):
+        """is `nm` assigned in the block anywhere but in tail position"""
+        for st in blk[:-1]:
+            if any(isinstance(x, ast.Name) and x.id == nm and isinstance(x.ctx, ast.Store) for x in ast.walk(st)):
+                return True
+        last = blk[-1]
+        if isinstance(last, ast.If):
+            return self.non_tail_stores(last.body, nm) or self.non_tail_stores(last.orelse, nm)
+        return False
+
+    def tail_assign_branches(self, s):
+        """spec key `tail_assign`: `if c: …; T = X  else: …; T = Y` (a branch may also end in `raise` or in a nested
+        if/else of this shape): every branch ends with an assignment to the same new Name -> its id"""
+        if not self.spec.get('tail_assign', False):
+            return None
+        if self.same_assign_branches(s) is not None or not s.body or not s.orelse:
+            return None
+        x, y = self.tails(s.body), self.tails(s.orelse)
+        if x is None or y is None or len(x | y) != 1:
+            return None
+        nm = next(iter(x | y))
+        if nm in self.declared_before_walk or self.non_tail_stores(s.body, nm) or self.non_tail_stores(s.orelse, nm):
+            return None
+        return nm
+
+    def value_block(self, blk, ind):
+        """a block in value position: its last statement yields the value of the enclosing `let T ← (do …)`"""
+        saved = set(self.declared)
+        for st in blk[:-1]:
+            self.stmt(st, ind)
+        last = blk[-1]
+        if isinstance(last, ast.Assign):
+            rhs = self.expr_or_monadic(last.value)
+            self.emit(ind, rhs[1:].strip() if rhs.startswith('←') else 'pure %s' % rhs)
+        elif isinstance(last, ast.Raise):
+            self.stmt(last, ind)
+        else:
+            self.emit(ind, 'if %s then' % self.cond(last.test))
+            self.value_block(last.body, ind + 1)
+            self.emit(ind, 'else')
+            self.value_block(last.orelse, ind + 1)
+        self.declared = saved
+
+    def monadic_leaves(self, nodes):
+        """sub-expressions bound by a monadic pattern, in evaluation (depth-first, field) order"""
+        out = []
+
+        def visit(n):
+            hit = self.try_patterns(n)
+            if hit is not None:
+                if hit.startswith('←'):
+                    out.append(hit)
+                return
+            for c in ast.iter_child_nodes(n):
+                visit(c)
+        for n in nodes:
+            visit(n)
+        return out
 
     def same_assign_try(self, s):
         """`try: T = X  except E: T = Y …` with the same single name T everywhere  ->  (T, X, [(names of E, Y)…])"""
@@ -630,6 +723,8 @@ class Fn:
                 if xa.startswith('←') or ya.startswith('←'):
                     # a monadic leaf in a branch: only the chosen branch is run  ->  let T ← (if c then A else B)
                     xa, ya = [z[1:].strip() if z.startswith('←') else 'pure ' + z for z in (xa, ya)]
+                    # (a leaf nested inside the branch's action needs a `do` of its own: it stays in that branch)
+                    xa, ya = ['do ' + z if '(←' in z else z for z in (xa, ya)]
                     self.assign(ind, t, '← (if %s then (%s) else (%s))' % (self.cond(s.test), xa, ya))
                     return
                 if '(←' in xa or '(←' in ya:
@@ -637,6 +732,16 @@ class Fn:
                     self.assign(ind, t, '← (if %s then (do pure %s) else (do pure %s))' % (self.cond(s.test), xa, ya))
                     return
                 self.assign(ind, t, '(if %s then %s else %s)' % (self.cond(s.test), xa, ya))
+                return
+            tail = self.tail_assign_branches(s)
+            if tail is not None and tail not in self.declared and tail not in self.mut:
+                self.emit(ind, 'let %s ← (do' % mangle(tail))
+                self.emit(ind + 1, 'if %s then' % self.cond(s.test))
+                self.value_block(s.body, ind + 2)
+                self.emit(ind + 1, 'else')
+                self.value_block(s.orelse, ind + 2)
+                self.lines[-1] += ')'
+                self.declared.add(tail)
                 return
             if isinstance(s.test, ast.BoolOp) and isinstance(s.test.op, ast.And) and not s.orelse and \
                     self.spec.get('and_style', 'nested-if') == 'nested-if' and '(←' in self.cond(s.test):
@@ -673,6 +778,9 @@ class Fn:
                 self.emit(ind, 'throw e__')
                 return
             name = src(exc.func) if isinstance(exc, ast.Call) else src(exc) if exc is not None else 'reraise'
+            if self.spec.get('raise_evaluates', False) and isinstance(exc, ast.Call):
+                for sub in self.monadic_leaves(exc.args):
+                    self.emit(ind, 'let _ %s' % sub)
             self.emit(ind, 'throw (PyErr.mk %s)' % lean_str(name.split('.')[-1]))
             return
         if isinstance(s, ast.Assert):
@@ -929,6 +1037,13 @@ class Fn:
         sig = self.spec['signature']
         head = 'def %s %s := do' % (self.spec['lean_name'], sig)
         out = [head] + self.lines
+        if self.spec.get('emit_params'):
+            a = self.node.args
+            pos = [x.arg for x in a.posonlyargs + a.args if x.arg != 'self']
+            out += ['', '/-- positional parameters of `%s`: (required, all, defaults) -/' % self.node.name,
+                    'def %s_params : Nat × Nat × List String := (%d, %d, [%s])'
+                    % (self.spec['lean_name'], len(pos) - len(a.defaults), len(pos),
+                       ', '.join(lean_str(src(d)) for d in a.defaults))]
         if self.spec.get('emit_defaults'):
             a = self.node.args
             for arg, dflt in zip(a.args[len(a.args) - len(a.defaults):], a.defaults):
